@@ -598,6 +598,10 @@ fn fixtures(ctx: &Ctx) -> Vec<String> {
         ("int.asm", "#! mrasm\n JR MAIN\n INC R2\n ST (0xFF), R2\n RETI\nMAIN:\n LDSP 0xEF\n BITS (0xF9), 0x01\n EI\nL:\n JR L\n"),
         ("undefined-opcode.asm", "#! mrasm\n .DB 0x4C, 0xE0, 0xFF, 0x7F\n"),
         ("bad.asm", "#! mrasm\n XYZ R0\n"),
+        // what `verify` accepts must also be loadable and displayable in the session
+        ("long-label.asm", "#! mrasm ; long names\nthis_is_a_rather_long_label_name_for_the_main_loop_0123456789:\n INC R0 ; count\n JR THIS_IS_A_RATHER_LONG_LABEL_NAME_FOR_THE_MAIN_LOOP_0123456789\n"),
+        ("mixed.asm", "#! mrasm\n*STACKSIZE 32\n*PROGRAMSIZE 200\nStart:\n ld r0, 0x10\n .EQU Cell 3\n DEC (Cell) ; memory form\n dec (R0+)\n st (cell), R0\n mov ((PC+)), (r0)\n jmp START\n .DB 1, 2, 3, 4, 5, 6, 7, 8, 9, 10, 11, 12, 13, 14, 15, 16 ; a wide line with a comment\n .DW 65535, 0x0100\n .BYTE 20\nEnd:\n JR end\n"),
+        ("unicode-comment.asm", "#! mrasm;日本語 ünïcödé 🎉\n NOP ; ä→ß\n; только комментарий\n STOP\n"),
     ];
     let mut v = vec![];
     for (n, t) in progs.iter() {
